@@ -49,7 +49,7 @@ TRecv == /\ Ev.e = "recv"
                        ELSE Report("metadata_changed", [to |-> p, sent |-> x, got |-> m, fields |-> Differing(x, m)])
                     /\ (x # m /\ p # x.Dst) => Report("foreign_delivery", [to |-> p, m |-> x])
                     /\ flight' = flight (-) One(x) /\ done' = done (+) One(m.ID)
-                    /\ last' = [e |-> "dlv", p |-> p, m |-> m] /\ UNCHANGED nsent
+                    /\ UNCHANGED <<nsent, last>>      \* not a delivery of Net: `last` keeps the last admitted event
                ELSE IF BagIn(m.ID, done) THEN
                     /\ Report("duplicate_delivery", [to |-> p, m |-> m, times |-> CopiesIn(m.ID, done) + 1])
                     /\ done' = done (+) One(m.ID) /\ UNCHANGED <<flight, nsent, last>>
